@@ -281,9 +281,13 @@ def net_prim(ctx: Ctx):
     ude = prog.ext_class("builtins.UnicodeDecodeError")
     futexc = future_exceptions(ctx)
     tattrs = tainted_attrs(ctx)
+    typeerror = prog.ext_class("builtins.TypeError")
+    from ..calls import arity_error
 
     def prim(node, fn, res):
         out = []
+        if isinstance(node, ast.Call) and arity_error(prog, res, node, fn) is not None:
+            out.append(typeerror)      # the call fails before the callee runs (C09: an internal exception on a network path)
         if isinstance(node, ast.Await):
             v = node.value
             c = chain(v)
